@@ -194,6 +194,15 @@ def run(ctx, rep):
         rep.ok("C20.globals", "thread-local keys are used only by the precomputed-type accessors", sorted(fm.short(u) for u in localkey_users))
     else:
         rep.violation("C20.globals", "tls-accessor", "thread-local state is used by %s, outside the reviewed accessors" % sorted(localkey_users - tl_ok))
+    # the per-thread tables hold equal types at different addresses: the reviewed reason above ("compared by TMR, never by
+    # pointer") is itself a rule
+    import c11
+    pis = c11.pointer_identity_sites(F)
+    for f_, cs, what in pis:
+        rep.violation("C20.globals", "tls-identity:" + f_.path, "%s compares types by address; the precomputed types live in per-thread tables, so the "
+                      "answer depends on which thread built the type" % what, cs.where())
+    if not pis:
+        rep.ok("C20.globals", "types from the per-thread tables are never compared by address", None)
     # the counter's value only makes names
     nn = F.fn("simplicity::types::variable::new_name")
     if nn is None:
